@@ -334,7 +334,21 @@ def run_alternation(key):
     F, D = 3, 3
     N = K * (D + 2) + 2
     integ = model in M.INTEGRATION
-    if alk != 'none':
+    if alk == 'builtin':
+        # integration models: clustered spatial and embedding streams (posteriors saturate), the start is the
+        # blurred partition with the classes permuted in some frequencies
+        y, labels = A.clustered_data(seed, (F,), K, N // K, D, 'alt-bi', model, noise=0.2)
+        N = y.shape[-2]
+        emb, _ = A.clustered_data(seed, (F,), K, N // K, 3, 'alt-bi-emb', model, complex_=False, noise=0.2,
+                                  protos=A.unit_vectors(seed, K, 3, 'alt-bi-p', model, complex_=False, max_cos=0.8))
+        if model == 'vmfcacgmm':
+            emb = emb / np.linalg.norm(emb, axis=-1, keepdims=True)
+        data, lead = (y, emb), (F,)
+        init = A.partition_affiliation(labels, K, blur=0.3, lead=lead)
+        perms = [list(range(K)), list(np.roll(np.arange(K), 1)), list(np.arange(K)[::-1])]
+        for f in range(F):
+            init[f] = init[f][perms[f % 3]]
+    elif alk != 'none':
         # classes with distinct activity, start = blurred partition permuted per frequency
         # (a 3-cycle in one bin for K >= 3), so that the aligner really re-orders
         data, labels = A.clustered_data(seed, (F,), K, N // K, D, 'alt-al', model, noise=0.25)
@@ -364,6 +378,8 @@ def run_alternation(key):
             opts['hermitize'] = ref_opts['hermitize'] = False
         elif opt == 'eps':
             opts['affiliation_eps'] = eps = 1e-3
+        elif opt == 'eps5':
+            opts['affiliation_eps'] = eps = 0.05
         elif opt in ('trace_floor', 'nonorm_floor'):
             opts['covariance_norm'] = ref_opts['norm'] = 'trace' if opt == 'trace_floor' else False
             opts['eigenvalue_floor'] = ref_opts['floor'] = 0.05
@@ -386,7 +402,9 @@ def run_alternation(key):
         opts['spatial_weight'], opts['spectral_weight'] = sw
         ref_opts['sw'] = sw
     aligner = None
-    if alk != 'none':
+    if alk == 'builtin':
+        opts['inline_permutation_alignment'] = True
+    elif alk != 'none':
         opts['inline_permutation_aligner'] = S.make_aligner(alk, F)
         aligner = _ref_aligner(alk, F)
     trace = []
@@ -439,7 +457,11 @@ def run_alternation(key):
                 # z^H B^-1 z amplifies rounding by cond(B) = 1 / min eigenvalue (max is normalised)
                 lam = np.asarray(imp_i['cacg']['lam'])
                 rt_e = rt + 1e-14 * float((lam.max(-1) / lam.min(-1)).max())
-            g_ref, q_ref, _ = EM.e_step(model, imp_i, data, eps=eps)
+            if alk == 'builtin':
+                g_ref, q_ref, amb = EM.e_step_builtin(model, imp_i, data, eps=eps)
+                ambiguous = ambiguous or amb
+            else:
+                g_ref, q_ref, _ = EM.e_step(model, imp_i, data, eps=eps)
             if aligner is not None:
                 g_ref, q_ref, amb = EM.apply_aligner(g_ref, q_ref, aligner)
                 ambiguous = ambiguous or amb
@@ -475,7 +497,11 @@ def run_alternation(key):
         amb_all = False
         for i in range(n):
             if ref is not None:
-                g, q, _ = EM.e_step(model, ref, data, eps=eps)
+                if alk == 'builtin':
+                    g, q, amb = EM.e_step_builtin(model, ref, data, eps=eps)
+                    amb_all = amb_all or amb
+                else:
+                    g, q, _ = EM.e_step(model, ref, data, eps=eps)
                 if aligner is not None:
                     g, q, amb = EM.apply_aligner(g, q, aligner)
                     amb_all = amb_all or amb
@@ -620,6 +646,12 @@ def subchecks(tier, seed):
                                 if not thorough and K == 3 and opt != optmap[0] and salk != 'none':
                                     continue
                                 yield (model, K, wca, salk, alk, 4 if model == 'cbmm' else n, opt, seed)
+            if integ:
+                # built-in spatial/spectral alignment of the integration models, with a clip that is active
+                for K in (2, 3):
+                    for wca in ((-1,), (-3,)):
+                        for opt in ('default', 'eps5', 'streams'):
+                            yield (model, K, wca, 'none', 'builtin', n, opt, seed)
     subs.append(Sub('em_alternation', ('model', 'K', 'wca', 'sal', 'aligner', 'n', 'opt', 'seed'),
                     alt_cases, run_alternation,
                     bound=dict(iterations=n, note='state = traced (affiliation, quadratic form, model) of one '
